@@ -15,6 +15,7 @@ Directives (all start with `//@`):
   //@rules R-a R-b ...
   //@loop <N> [iter=<name>]                     followed by //@| clause lines
   //@closure <N> params="a: T; b: U" ret="(r: X)"   followed by //@| clause lines
+  //@outtype <var> <Type>                       type ascription for a rule-introduced `let mut <var> = Vec::new();`
   //@anchor <name> scope=fn|loop:N pos=before|after|start|end [match="regex"] [nth=k]  + //@| lines
   //@end
 """
@@ -60,6 +61,7 @@ class BodyDirective:
         self.loops = {}      # N -> {"iter": name or None, "text": [lines]}
         self.closures = {}   # N -> {"params": [...], "ret": str, "text": [lines]}
         self.anchors = []    # {"name","scope","pos","match","nth","text":[lines]}
+        self.outtypes = {}   # name of a rule-introduced collection variable -> its type (ascription only)
 
 
 def parse_template(path):
@@ -106,6 +108,9 @@ def parse_template(path):
                 pos, kv = parse_kv(rest)
                 sub = {"name": pos[0], "scope": kv.get("scope", "fn"), "pos": kv.get("pos", "after"), "match": kv.get("match", ""), "nth": int(kv.get("nth", "0")), "text": []}
                 cur.anchors.append(sub)
+            elif word == "outtype":
+                nm, ty = rest.split(None, 1)
+                cur.outtypes[nm] = ty.strip()
             elif word == "end":
                 segs.append(("body", cur))
                 cur = None
@@ -231,6 +236,12 @@ def splice_body(body, bd, n_loops, n_closures):
         ind = line_indent_at(text, p)
         repl = ("\n" + ind).join(l for l in a["text"])
         text = text[:p] + repl + text[p + len(mark):]
+    # type ascriptions for rule-introduced collection variables (no executable effect)
+    for nm, ty in bd.outtypes.items():
+        pat = "let mut %s = " % nm
+        if text.count(pat) != 1:
+            raise Undecided(f"lost anchor: outtype {nm} of {bd.kv.get('id')}")
+        text = text.replace(pat, "let mut %s: %s = " % (nm, ty))
     if "__vx_anchor!" in text or "__VxCRet_" in text or "'vxl_" in text:
         raise Undecided(f"internal: unresolved marker in {bd.kv.get('id')}")
     return text
@@ -241,7 +252,8 @@ def splice_body(body, bd, n_loops, n_closures):
 def run_vx(items):
     os.makedirs(BUILD, exist_ok=True)
     req = {"repo": REPO, "items": items}
-    rp = os.path.join(BUILD, "vx_req_%d_%d.json" % (os.getpid(), int(time.time() * 1000) % 100000))
+    import uuid
+    rp = os.path.join(BUILD, "vx_req_%s.json" % uuid.uuid4().hex)
     with open(rp, "w") as f:
         json.dump(req, f)
     if not os.path.exists(VX):
@@ -298,6 +310,10 @@ def assemble(unit, canary=False):
             it = {"id": kv["id"], "file": kv["file"], "kind": "fn", "name": kv["name"], "rules": bd.rules,
                   "closures": {str(k): {"params": v["params"]} for k, v in bd.closures.items()},
                   "anchors": [{"name": a["name"], "scope": a["scope"], "pos": a["pos"], "match": a["match"], "nth": a["nth"]} for a in bd.anchors]}
+            if canary:
+                # reachability canary: `assert(false)` at the end of the body (after all other end-anchors);
+                # it must FAIL, otherwise the preconditions/assumed contracts are contradictory
+                it["anchors"].append({"name": "__canary", "scope": "fn", "pos": "end", "match": "", "nth": 0})
             for k in ("impl_self", "impl_trait", "in_trait"):
                 if k in kv:
                     it[k] = kv[k]
@@ -326,6 +342,8 @@ def assemble(unit, canary=False):
                 raise Undecided(f"unit {unit}: fn {bd.kv['id']}: {r['error']}")
             if bd.sig is not None and bd.sig.strip() != r["orig_sig"].strip():
                 raise Undecided(f"unit {unit}: fn {bd.kv['id']}: signature drift: source has `{r['orig_sig']}`, unit expects `{bd.sig}`")
+            if canary:
+                bd.anchors.append({"name": "__canary", "scope": "fn", "pos": "end", "match": "", "nth": 0, "text": ["proof { assert(false); } // [canary]"]})
             body = splice_body(r["body"], bd, r["n_loops"], r["n_closures"])
             props = [p for p in bd.kv.get("props", "").split(",") if p]
             # find the contract header lines (walk back from here to the `fn` line)
@@ -335,22 +353,6 @@ def assemble(unit, canary=False):
             if j < 0:
                 raise Undecided(f"unit {unit}: no `fn {bd.kv['name']}` header before //@body {bd.kv['id']}")
             header_start = j
-            if canary:
-                # add `false` as a postcondition of this function
-                ens = None
-                dec = None
-                for q in range(header_start, len(asm.lines)):
-                    st = asm.lines[q].strip()
-                    if ens is None and re.match(r"ensures\b", st):
-                        ens = q
-                    if dec is None and re.match(r"decreases\b", st):
-                        dec = q
-                if ens is not None:
-                    asm.lines[ens] = re.sub(r"\bensures\b", "ensures false, /*canary*/", asm.lines[ens], count=1)
-                elif dec is not None:
-                    asm.lines[dec] = bd.indent + "    ensures false, /*canary*/\n" + asm.lines[dec]
-                else:
-                    asm.add(bd.indent + "    ensures false, /*canary*/", {"kind": "canary"})
             out_start = len(asm.lines) + 1
             asm.add(bd.indent + "{", {"kind": "extracted", "fn": bd.kv["id"]})
             for bl in body.split("\n"):
@@ -510,6 +512,16 @@ def check_unit(unit, rlimit=None, seed=None, with_canary=True):
     extra = []
     if seed is not None:
         extra += ["-V", "smt-option=random_seed=%d" % (int(seed) % 1000000)]
+    # the unit must still contain every function and labelled obligation it was frozen with
+    # (bin/freeze writes units/<unit>/expected.json); a silently lost contract is "undecided", not green
+    exp_path = os.path.join(VERIF, "units", unit, "expected.json")
+    if os.path.exists(exp_path) and not os.environ.get("VERIF_NO_EXPECTED"):
+        exp = json.load(open(exp_path))
+        have_f = {f["id"] for f in asm.functions}
+        have_t = {f"{p}.{l}" for tl in asm.tags.values() for (p, l) in tl}
+        miss = [x for x in exp.get("functions", []) if x not in have_f] + [x for x in exp.get("labels", []) if x not in have_t]
+        if miss:
+            raise Undecided(f"unit {unit}: frozen functions/labels missing from the assembled unit: {miss}")
     res = run_verus(path, rlimit=rlimit, extra=extra)
     status, fails, notes = classify(res)
     if status == "undecided":
@@ -536,7 +548,14 @@ def check_unit(unit, rlimit=None, seed=None, with_canary=True):
             raise Undecided(f"unit {unit} canary: " + "; ".join(cnotes))
         failed_fns = set()
         for d in cfails:
-            if "postcondition" not in d.get("message", ""):
+            if "assertion failed" not in d.get("message", ""):
+                continue
+            is_canary = False
+            for sp in d.get("spans", []):
+                for t in sp.get("text", []):
+                    if "[canary]" in t.get("text", ""):
+                        is_canary = True
+            if not is_canary:
                 continue
             _, site, _ = locate(casm, d)
             if site:
